@@ -286,6 +286,7 @@ func run(t *core.Tape, st *core.Stats) *core.Violation {
 	st.MOApplied += ss.MapApplied
 	st.MONonIdent += ss.MapNonIdentity
 	st.Add("context-switches", int64(ss.Switches))
+	st.Add("fault:forced-preemption (the scheduler takes the processor away at a yield point)", int64(ss.Switches))
 	st.State(ss.SchedHash)
 
 	if ss.OverBudget {
